@@ -36,7 +36,8 @@ AllowedCodonAlign(aa, nt, new, code) ==
   /\ \A r \in 1..Len(aa.rows) :
        LET ntrow == RowOfName(nt, aa.rows[r].n).s  out == new.rows[r].s IN
        /\ Len(out) = 3 * Len(aa.rows[r].s)
-       /\ IsPrefix(Ungap(out), ntrow) /\ Len(ntrow) - Len(Ungap(out)) <= 2
+       \* (nucleotide sequences to thread are unaligned: with gaps inside them only the shape is judged)
+       /\ NoGapAnywhere(nt) => (IsPrefix(Ungap(out), ntrow) /\ Len(ntrow) - Len(Ungap(out)) <= 2)
        /\ (NoGapAnywhere(nt) /\ Ungap(aa.rows[r].s) = TranslateS(ntrow, 0, code)) => TranslateS(out, 0, code) = aa.rows[r].s
   /\ Len(aa.rows) > 0 => new.len = 3 * Width(aa)
 
